@@ -409,6 +409,10 @@ class Run:
             kw['event_parent_id'] = opts['parent']
         if opts.get('payload'):
             kw.update(_payload(opts['payload']))
+        if opts.get('age'):
+            # the event object was constructed `age` seconds before it is dispatched (creation order != dispatch order)
+            import datetime as _dt
+            kw['event_created_at'] = _dt.datetime.now(_dt.UTC) - _dt.timedelta(seconds=opts['age'])
         e = TYPES[t](**kw)
         self.events[tag] = e
         self.tag_by_id[e.event_id] = tag
